@@ -196,6 +196,14 @@ func c08Run(c *ev.Ctx) {
 			specsP = append(specsP, payloadSpec{n, kind})
 		}
 	}
+	// one large, highly compressible payload (ratios beyond 1000:1 through deflate) for
+	// pipelines that compress
+	if strings.Contains(sig, "gzip") || strings.Contains(sig, "lzf") {
+		specsP = append(specsP, payloadSpec{2 << 20, 0})
+		if c.Thorough() {
+			specsP = append(specsP, payloadSpec{8 << 20, 0}, payloadSpec{3 << 20, 4})
+		}
+	}
 	for _, per := range []int{1, 2, 3, 8, 31, 32, 33, 255, 256, 257, 263, 264, 265, 8191, 8192, 8193, 8194, 32767, 32768, 32769} {
 		if per > 9000 && !c.Thorough() {
 			continue
@@ -493,7 +501,7 @@ func c08EndToEnd(c *ev.Ctx) {
 var C08 = &ev.Property{
 	ID:    "C08",
 	Level: "exploration",
-	Rule: "package level: every ordered selection of distinct filters from {deflate(level 1-9), shuffle(elem 1,2,4,8,16), fletcher32, lzf} (64 orderings × seeded parameters) × 18-20 payload sizes (0 B..4 KiB, thorough up to 1 MiB) × 5 payload kinds plus periodic payloads (a random block repeated at periods 1,2,3,8,31-33,255-257,263-265,8191-8194 and, thorough, 32767-32769: back references at the compressors' length and window limits): Apply/Remove identity, pipeline message encode/parse identity, reader (core.ApplyFilters on a description built from the filters' ids/client data) decodes the writer's bytes; " +
+	Rule: "package level: every ordered selection of distinct filters from {deflate(level 1-9), shuffle(elem 1,2,4,8,16), fletcher32, lzf} (64 orderings × seeded parameters) × 18-20 payload sizes (0 B..4 KiB, thorough up to 1 MiB; 2 MiB of zeros for compressing pipelines, thorough also 8 MiB) × 5 payload kinds plus periodic payloads (a random block repeated at periods 1,2,3,8,31-33,255-257,263-265,8191-8194 and, thorough, 32767-32769: back references at the compressors' length and window limits): Apply/Remove identity, pipeline message encode/parse identity, reader (core.ApplyFilters on a description built from the filters' ids/client data) decodes the writer's bytes; " +
 		"for pipelines ending in fletcher32 every byte position (<=512 B) or 200 sampled positions of the stored chunk is altered by a bit flip and both decoders must report an error. End to end: chunked filtered datasets through the public API in all accepted option combinations × superblock 0/2/3, reopened and read. " +
 		"distinct = distinct (pipeline with parameters) or e2e configuration descriptors; all are non-trivial.",
 	Assumptions: []string{
